@@ -47,8 +47,30 @@ impl<const P: u128> ops::Mul<FiniteField<P>> for FiniteField<P> {
     type Output = FiniteField<P>;
 
     fn mul(self, rhs: FiniteField<P>) -> Self::Output {
-        FiniteField::new((self.v * rhs.v) % P)
+        FiniteField::new(mul_mod::<P>(self.v, rhs.v))
     }
+}
+
+/// `(a * b) mod P` for residues `a, b < P` without leaving `u128`.
+///
+/// For `P <= 2^64` the product of two residues fits in 128 bits; for the
+/// larger exported primes (~2^96) it does not, so fall back to
+/// double-and-add, whose intermediate values stay below `2 * P`.
+fn mul_mod<const P: u128>(a: u128, b: u128) -> u128 {
+    if P <= (1u128 << 64) {
+        return (a * b) % P;
+    }
+    let mut result: u128 = 0;
+    let mut a = a % P;
+    let mut b = b;
+    while b > 0 {
+        if b & 1 == 1 {
+            result = (result + a) % P;
+        }
+        a = (a + a) % P;
+        b >>= 1;
+    }
+    result
 }
 
 impl<const P: u128> ops::Sub<FiniteField<P>> for FiniteField<P> {
